@@ -864,6 +864,19 @@ func genPrograms(prop, out, tier string, rng *rand.Rand) {
 					dtasks = append(dtasks, Task{en, "many-rows", prog})
 				}
 			}
+			// and a table beyond the next common batch sizes (1000, 1024, 2048): delete all, delete by the
+			// prefix every key has; one row of a batch boundary left behind is one row too many
+			var big []Entry
+			for i := 0; i < 2100; i++ {
+				big = append(big, Entry{Key: []byte(fmt.Sprintf("row-%04d", i)), Muts: []Mutation{{Kind: "set", Fam: "cf", Q: []byte("q"), Ts: 1000, V: []byte{byte('a' + i%26)}}}})
+			}
+			loadBig := Call{Req: Req{Kind: "mutaterows", Table: t, Entries: big}, Now: 1000}
+			for _, en := range engines() {
+				for _, drop := range []Req{{Kind: "drop", Table: t, All: true}, {Kind: "drop", Table: t, HasPfx: true, Prefix: []byte("row-")}} {
+					prog := []Call{create, loadBig, {Req: drop, Now: 1000}, rd, set("row-0300", "cf", "q", "again"), rd, {Req: Req{Kind: "drop", Table: t, All: true}, Now: 1000}, rd}
+					dtasks = append(dtasks, Task{en, "many-rows-2100", prog})
+				}
+			}
 		}
 		if prop == "C14" {
 			// directed: DropRowRange by a prefix at the byte boundaries (ending in 0xff, all 0xff, equal to a
